@@ -249,8 +249,17 @@ func (server *Server) tlsServe() error {
 	return nil
 }
 
+// recoverConnPanic keeps a panic raised while serving one connection from terminating the process.
+func recoverConnPanic() {
+	if r := recover(); r != nil {
+		log.Errorf("%s/%s connection terminated (%v)", PackageName, Version, r)
+	}
+}
+
 // receive handles a client connection.
 func (server *Server) receive(conn net.Conn, tlsState *tls.ConnectionState) error {
+	defer recoverConnPanic()
+
 	_, isPasswdRequired := server.ConfigRequirePass()
 
 	handlerConn := newConnWith(conn, tlsState)
